@@ -31,6 +31,9 @@ INTS = ["0", "1", "2", "3", "5", "7", "12", "255", "1000", "65535", "1048575"]
 SHIFTS = ["0", "1", "2", "5", "16", "30"]
 BOOLS = ["0", "1"]
 NONZERO = ["1", "2", "3", "7", "10", "0.5", "0.25", "1.5", "1000", "0.001"]
+# neighbouring values: a comparison must tell them apart exactly as seq/sne/slt do at run time
+NEAR = [("2000000001", "2000000002"), ("1000000", "1000000.000001"), ("0.1", "0.100000000000001"), ("4503599627370496", "4503599627370497"),
+        ("123.456", "123.456000001"), ("1e-05", "1.00000001e-05"), ("65536", "65536.0001"), ("0.3", "0.3"), ("99.9", "99.9")]
 MATH1 = ["sin", "cos", "tan", "atan", "exp"]
 # names whose first / last characters also occur in the spelling HASH("..") itself
 HASH_NAMES = ["O2", "Main Base", "x", "Storage Tank", "Pump (2)", "Sensor", "HASH", "A", "(x)", "Heater (A)", "SH", "abc)", "Airlock", "H"]
@@ -137,8 +140,13 @@ def gen_bool(draw, d):
     cmp_ = ch(["==", "!=", "<", "<=", ">", ">="])
     if k < 45:
         return E("({} " + cmp_ + " {})", [gen_int(draw, d + 1), gen_int(draw, d + 1)])
-    if k < 60:
+    if k < 52:
         return E("({} " + cmp_ + " {})", [lit(ch(POOL)), lit(ch(POOL))])
+    if k < 60:
+        a, b = ch(NEAR)
+        if draw(st.booleans()):
+            a, b = b, a
+        return E("({} " + cmp_ + " {})", [lit(a), lit(b)])
     if k < 80:
         return E("({} " + ch(["and", "or"]) + " {})", [gen_bool(draw, d + 1), gen_bool(draw, d + 1)])
     if k < 90:
@@ -174,6 +182,10 @@ def grid_exprs():
         for a in INTS[:7] + ["0.5", "2.75"]:
             for b in INTS[:7] + ["0.5"]:
                 out.append(E("({} " + op + " {})", [lit(a), lit(b)]))
+    for op in ["==", "!=", "<", "<=", ">", ">="]:
+        for a, b in NEAR:
+            out.append(E("(({} " + op + " {}) + 0)", [lit(a), lit(b)]))
+            out.append(E("(({} " + op + " {}) * 10)", [lit(b), lit(a)]))
     for op in ["and", "or"]:
         for a in BOOLS:
             for b in BOOLS:
